@@ -304,7 +304,7 @@ fn make_doc(offs: &[usize], picks: &[usize], special: Option<(usize, usize)>) ->
 
 pub fn run(run: &mut Run) -> Finish {
     let tier = run.ctx.tier;
-    let maxn = tier.pick(3usize, 5);
+    let maxn = tier.pick(4usize, 6);
     let np = pool().len() as u64;
     let mut slice_no = 1;
     for n in 1..=maxn {
